@@ -1,10 +1,26 @@
 #![allow(dead_code)]
 //! rvh — harness binding the TLA+ specification in /verif/spec to the real ragc crates.
-//! Sub-commands are grouped per specification module; each reads/writes JSON (ndjson for
-//! traces) so that every verdict above the projection level is made by TLC or by comparing
-//! the model's projected post-state with the real one (REPLAY).
+//! Sub-commands are grouped per specification module (one Rust module each, each with a
+//! `dispatch(cmd, args) -> Option<Result<()>>`); each reads/writes JSON (ndjson for traces) so
+//! that every verdict above the projection level is made by TLC or by comparing the model's
+//! projected post-state with the real one (REPLAY).
 mod util;
 mod kmer;
+mod tuplepack;
+mod lz;
+mod container;
+mod queue;
+mod collection;
+mod reader;
+mod segmentation;
+mod splitters;
+mod archive;
+mod lex;
+mod gen;
+mod pipeline;
+mod fasta;
+mod cli;
+mod profiles;
 
 use std::process::exit;
 
@@ -15,16 +31,34 @@ fn main() {
         exit(2);
     }
     let a = util::Args::new(&args[2..]);
-    let r = match args[1].as_str() {
-        "replay-kmer" => kmer::replay(&a),
-        "trace-kmer" => kmer::trace(&a),
-        other => {
-            eprintln!("unknown subcommand {}", other);
-            exit(2);
+    let cmd = args[1].as_str();
+    let table: Vec<fn(&str, &util::Args) -> Option<anyhow::Result<()>>> = vec![
+        kmer::dispatch,
+        tuplepack::dispatch,
+        lz::dispatch,
+        container::dispatch,
+        queue::dispatch,
+        collection::dispatch,
+        reader::dispatch,
+        segmentation::dispatch,
+        splitters::dispatch,
+        archive::dispatch,
+        lex::dispatch,
+        gen::dispatch,
+        pipeline::dispatch,
+        fasta::dispatch,
+        cli::dispatch,
+        profiles::dispatch,
+    ];
+    for d in table {
+        if let Some(r) = d(cmd, &a) {
+            if let Err(e) = r {
+                eprintln!("rvh {}: error: {:#}", cmd, e);
+                exit(2);
+            }
+            return;
         }
-    };
-    if let Err(e) = r {
-        eprintln!("rvh {}: error: {:#}", args[1], e);
-        exit(2);
     }
+    eprintln!("unknown subcommand {}", cmd);
+    exit(2);
 }
